@@ -284,6 +284,11 @@ func extraC13Wave2(c *Ctx, r *Report) {
 				return
 			}
 			sc := cc.StaticCallee()
+			// the fragment may be written by the handler itself (the emitting helper inlined)
+			if call, isCall := in.(*ssa.Call); isCall && sc != nil && isWriteEvent(sc) && eventNameArg(&call.Call) == "content_block_delta" && deltaType(call) == "input_json_delta" {
+				args = append(args, in)
+				return
+			}
 			if sc == nil || isWriteEvent(sc) || !strings.HasSuffix(fnPkgPath(sc), pkgAnthropic) {
 				return
 			}
